@@ -24,23 +24,29 @@ import (
 //     apply to the tree under test are skipped.
 func thorough(p *core.Prog, pr *rules.Property, c *core.Ctx, verif, repo string, out *core.Outcome) map[string]interface{} {
 	res := map[string]interface{}{}
-	// ---- 1. second configuration
-	if p386, err := core.Load(repo, "GOARCH=386"); err != nil {
-		res["goarch_386"] = "load failed: " + err.Error()
-		c.Unk("config", "GOARCH=386/load", "", "the repository does not load under GOARCH=386: "+err.Error())
-		*out = *c.Finish(nil)
-	} else {
+	// ---- 1. further build configurations: GOARCH=386 always, plus every GOOS/GOARCH under which a file that
+	// the default configuration excludes by build constraints would be compiled
+	configs := append([]string{"GOARCH=386"}, p.AltConfigs...)
+	cfgRes := map[string]interface{}{}
+	for _, cfg := range configs {
+		p2, err := core.Load(repo, strings.Fields(cfg)...)
+		if err != nil {
+			cfgRes[cfg] = "load failed: " + err.Error()
+			c.Unk("config", cfg+"/load", "", "the repository does not load under "+cfg+": "+err.Error())
+			*out = *c.Finish(nil)
+			continue
+		}
 		if p.InlineLevel > 0 {
-			// the verdict was reached on an inlining normal form: analyse the same form of the second configuration
-			if q, err := p386.WithInlinedSet(p.InlineLevel, p.InlineOnly); err == nil {
-				p386 = q
+			// the verdict was reached on an inlining normal form: analyse the same form of this configuration
+			if q, err := p2.WithInlinedSet(p.InlineLevel, p.InlineOnly); err == nil {
+				p2 = q
 			}
 		}
-		c2 := core.NewCtx(p386, pr.ID)
+		c2 := core.NewCtx(p2, pr.ID)
 		func() {
 			defer func() {
 				if r := recover(); r != nil {
-					c2.Unk("internal", "checker-panic@386", "", fmt.Sprint(r))
+					c2.Unk("internal", "checker-panic@"+cfg, "", fmt.Sprint(r))
 				}
 			}()
 			pr.Run(c2)
@@ -54,12 +60,16 @@ func thorough(p *core.Prog, pr *rules.Property, c *core.Ctx, verif, repo string,
 			if !known[o.Key+"|"+string(o.Status)] {
 				diff++
 				if o.Status != core.Discharged {
-					o.Key += "@GOARCH=386"
+					o.Key += "@" + cfg
 					c.Obs = append(c.Obs, o)
 				}
 			}
 		}
-		res["goarch_386"] = map[string]interface{}{"obligations": len(c2.Obs), "verdict_differences": diff}
+		cfgRes[cfg] = map[string]interface{}{"obligations": len(c2.Obs), "verdict_differences": diff}
+	}
+	res["configurations"] = cfgRes
+	if len(p.ExcludedFiles) > 0 {
+		res["files_excluded_by_build_constraints"] = p.ExcludedFiles
 	}
 
 	// ---- 2. variant battery
@@ -178,7 +188,7 @@ func thorough(p *core.Prog, pr *rules.Property, c *core.Ctx, verif, repo string,
 		"first_report_per_bad_variant": details,
 		"note":                         "variants are analysed statically on scratch copies of the current working tree; they are a self-test of the rules, not part of the verdict on the tree under test",
 	}
-	fmt.Printf("  thorough: GOARCH=386 re-analysis done; variants: %d bad reported, %d bad missed, %d refactors silent, %d refactors alarmed, %d skipped\n", len(caught), len(missed), len(okSilent), len(okAlarm), len(skipped))
+	fmt.Printf("  thorough: %d further configuration(s) analysed; variants: %d bad reported, %d bad missed, %d refactors silent, %d refactors alarmed, %d skipped\n", len(configs), len(caught), len(missed), len(okSilent), len(okAlarm), len(skipped))
 	for _, m := range missed {
 		fmt.Printf("  SELFTEST-MISSED %s (a known-bad variant of this tree is not reported by the %s rules)\n", m, pr.ID)
 	}
